@@ -217,6 +217,39 @@ def _establish(P, names, quick=True):
                     a, fa, cons = out
                     compare(P, name, (C, n, tuple(ctx.decisions)), a, fa, cons + list(ctx.pc), st)
                 explore(runm, bound=4, on_path=onp, stats=st)
+                # the float32 variant(s): 32-bit files hand a float fill value to the kernel; numba converts it to the
+                # *declared* parameter type at the call boundary (a float handed to an integer parameter is truncated)
+                for sg in disp.nopython_signatures[1:]:
+                    if not isinstance(sg.args[0].dtype, types.Float):
+                        continue
+                    capf = capture(disp, sg.args)
+                    pty = sg.args[2]
+
+                    def runf(ctx, C=C, n=n, capf=capf, pty=pty, sg=sg):
+                        it = Interp(capf, "int")
+                        a = sym_array(it, "xf", A(sg.args[0].dtype), (C * n,))
+                        a0 = NArr(sg.args[0].dtype, a.shape, name="xf0")
+                        a0.store = list(a.store)
+                        m = sym_array(it, "m", A(b1), (C,))
+                        mvr = z3.Real("mvr")
+                        cons = [mvr >= 0, mvr <= 255]
+                        if isinstance(pty, types.Integer):
+                            passed = Sym(z3.ToInt(mvr), pty)          # what the compiled kernel receives
+                        else:
+                            passed = Sym(mvr, pty)
+                        it.run([a, m, passed, C, n])
+                        kc = KC()
+                        fa = to_farr(a0, "f4")
+                        from .core import SReal
+                        kc.mask_channels(fa, SymList([SBool(e.t) for e in m.store]), SReal(mvr), C, SInt(z3.IntVal(n)))
+                        pre = [a0, m, Sym(mvr, sg.args[0].dtype), C, n]
+                        return a, fa, cons, pre
+
+                    def onpf(ctx, out, C=C, n=n):
+                        a, fa, cons, pre = out
+                        PRE[name] = pre          # replay: the real dispatcher is called with float32 samples and a float fill value
+                        compare(P, name, ("float32 samples, float fill value", C, n, tuple(ctx.decisions)), a, fa, cons + list(ctx.pc), st)
+                    explore(runf, bound=4, on_path=onpf, stats=st)
             elif name == "downsample_2d_mean_flat":
                 disp = K.downsample_2d_mean_flat
                 cap = capture(disp, (A(u1, 1, "C"), i8, i8, i8, i8))
